@@ -252,7 +252,7 @@ PLANS["C18"] = dict(
         hf_mc("tokinit", extra=dict(Features=["tokinit", "transfer", "allow"], Amts=[1, 3]), depth=(3, 4))],
     hunt=[hf_hunt("tok", extra=dict(Features=["core", "transfer", "allow", "tokinit"]))],
     sim=[hf_sim("tok", extra=dict(Features=["core", "transfer", "allow", "tokinit"]))],
-    drive=[dict(name="tokens", menu=menu(MENU_HUB, items={"allow_b": 5, "allow_st": 5, "from_b": 6, "from_st": 6, "transfer_b": 4, "transfer_st": 4, "tokinit": 1, "disp_hub": 2}),
+    drive=[dict(name="tokens", menu=menu(MENU_HUB, items={"allow_b": 5, "allow_st": 5, "from_b": 6, "from_st": 6, "transfer_b": 4, "transfer_st": 4, "tokinit": 1, "disp_hub": 2, "allow_zero": 3}),
                 runs=(150, 600), len=40, consts=dict(MaxBatch=8))])
 
 DISP = dict(FundAmts=[0, 1, 7, 30], Prices=["D1", "D075", "D03", "D1000", "D0001"], Rates=["D0", "D005", "D03", "D1"],
@@ -383,6 +383,15 @@ HALF_PREFIX = [{"k": "instantiate", "c": "hub", "sender": "owner2", "epoch": 2, 
 MENU_LEGACY = {"items": {"set_legacy": 4, "unbond_b": 5, "unbond_st": 3, "bond": 3, "bond_st": 2, "pause": 7, "migrate": 3, "advance": 2, "withdraw": 1},
                "amax": 30, "dts": [1, 3, 5], "probes": ["withdraw"], "probe_every": 8}
 PLANS["C11"]["drive"] = PLANS["C11"]["drive"] + [dict(name="legacy", menu=MENU_LEGACY, runs=(60, 240), len=30, consts=dict(MaxBatch=8))]
+
+# (new driver entries rather than new items in shared menus: the pseudo-random streams of the existing drivers stay as they are)
+# (Inv_C07 relates claims to batch totals; legacy entries injected by the environment have no batch behind them, so in these
+# runs only the step formulas of C07 are judged - among them "the migration moves claims, it never creates one")
+PLANS["C07"]["drive"] = PLANS["C07"]["drive"] + [dict(name="legacy", menu=MENU_LEGACY, runs=(60, 240), len=30, consts=dict(MaxBatch=8), skip=["Inv_C07"])]
+# stake left behind on validators that are no longer registered (removal while redelegation is blocked), then exits
+MENU_STRANDED = menu(MENU_HUB, items={"add_validator": 3, "remove_validator": 7, "redelegations": 1, "set_canredel": 5, "unbond_b": 9, "unbond_st": 7, "accrue": 1, "ugi": 1, "set_ext": 0, "slash": 1},
+                     vary={"fee": [[0, 5000000, 0], [0, 0, 0]], "thr": [[1, 0, 0]], "periods": [[2, 5]], "init_vals": [[1, 2, 3], [1, 2]]}, amax=200)
+PLANS["C09"]["drive"] = PLANS["C09"]["drive"] + [dict(name="stranded", menu=MENU_STRANDED, runs=(60, 240), len=40, consts=dict(MaxBatch=8, NV=3, InitVals=[1, 2, 3]))]
 
 # staged deployments: a fresh hub on which exactly one of the two tokens (or only the registry, or only the reward contract) is registered so far
 def _inst(o):
